@@ -40,24 +40,28 @@ ASSUMPTIONS = [
     "TLC fingerprint collisions negligible",
 ]
 
-QUICK = ["BufSize_quick.cfg", "BufSize_quick_steady.cfg", "BufSize_quick_pause.cfg", "BufSize_quick_p1.cfg", "BufSize_quick_files.cfg"]
+QUICK = ["BufSize_quick.cfg", "BufSize_quick_pause.cfg", "BufSize_quick_p1.cfg", "BufSize_quick_files.cfg"]
 THOROUGH = ["BufSize_thorough.cfg", "BufSize_thorough_steady.cfg", "BufSize_thorough_p1.cfg", "BufSize_thorough_files.cfg",
-            "BufSize_thorough_caps.cfg", "BufSize_quick_pause.cfg"]
+            "BufSize_thorough_caps.cfg", "BufSize_quick_steady.cfg", "BufSize_quick_pause.cfg"]
 MUTANTS = {"BufSize_mut_noMaxTest.cfg": {"ShrinkOnlyWhenSlow", "DoubleOnlyWhenAllowed", "SizeInRange"},
            "BufSize_mut_noFactor2.cfg": {"NeverRejectedByReceiver", "NothingQueuedIsRejected"},
            "BufSize_mut_noFloor.cfg": {"SizeInRange", "ShrinkOnlyWhenSlow"}}
-ACTIONS = ["MBeginFile", "MEncFull", "EncDeliver", "EncWait", "EncRenew", "MEndOfData", "EncTail", "EncFlag",
-           "SndTake", "SendChunk", "SndLoadPiece", "SendPiece", "SndAckPush", "AckTake", "MAckFast", "MAckSlow", "MAckMiddle",
-           "AckIgnored", "PauseSeen", "MPause", "MP1Send", "MP1AckFast", "MP1AckReset", "MP1AckKeep", "P1Empty", "FileDone", "Finish"]
+# TLC names an action after the innermost definition it can attribute the step to (the model's M-wrappers
+# that only add a bound keep their own name, those that quantify are reported under the wrapped action)
+ACTIONS = ["BeginFile", "EncFull", "EncDeliver", "EncWait", "EncRenew", "EndOfData", "EncTail", "EncFlag",
+           "SndTake", "SendChunk", "SndLoadPiece", "SendPiece", "SndAckPush", "AckTake", "AckFast", "AckSlow", "AckMiddle",
+           "AckIgnored", "PauseSeen", "Pause", "P1Send", "P1AckFast", "P1AckReset", "P1AckKeep", "P1Empty", "FileDone", "Finish"]
 
 
 def _design(quick):
     """Exhaustive runs, mutants, strict variant - all in parallel."""
-    jobs = [(c, "prop") for c in (QUICK if quick else THOROUGH)] + [(c, "mut") for c in MUTANTS] + [("BufSize_strict.cfg", "strict")]
+    jobs = [(c, "prop") for c in (QUICK if quick else THOROUGH)]
+    if not quick:   # the design-level mutants and the strict variant cost five more JVMs: thorough tier only
+        jobs += [(c, "mut") for c in MUTANTS] + [("BufSize_strict.cfg", "strict")]
 
     def one(job):
         cfgname, kind = job
-        r = vlib.tlc("BufSize", cfgname, workers=4 if quick else 8, timeout=900 if quick else 3000,
+        r = vlib.tlc("BufSize", cfgname, workers=3 if quick else 8, timeout=900 if quick else 3000,
                      heap="3g" if quick else "8g", coverage=(kind == "prop"))
         return cfgname, kind, r
     with ThreadPoolExecutor(max_workers=len(jobs)) as ex:
@@ -86,8 +90,8 @@ def _judge_design(results, cov):
                 raise vlib.Infra("design-level mutant %s is not caught by the invariants (violated=%s)" % (cfgname, r["violated"]))
         else:
             cov["strict_variant_on_design"] = {"cfg": cfgname, "violated": r["violated"]}
-    cov["action_coverage"] = {a: fired.get(a, 0) for a in ACTIONS}
-    dead = [a for a in ACTIONS if fired.get(a, 0) == 0]
+    cov["action_coverage"] = {a: fired.get(a, 0) + fired.get("M" + a, 0) for a in ACTIONS}
+    dead = [a for a in ACTIONS if cov["action_coverage"][a] == 0]
     if dead:
         raise vlib.Infra("actions that never fire in the exhaustive configurations: %s" % dead)
     cov["exhaustive"] = True
@@ -160,6 +164,7 @@ def _judge(files, v, details, cfg="BufSizeTrace.cfg", timeout=1800, max_rounds=8
         if not todo:
             break
         res = vlib.validate_traces("BufSizeTrace", cfg, todo, timeout=timeout, heap="1500m")
+        vlib.log("x01 trace validation round %d: %s" % (rnd, [(os.path.basename(f), r["n"], r["distinct"], r["wall_s"]) for f, r in zip(todo, res)]))
         nxt = []
         for f, r in zip(todo, res):
             if rnd == 0:
@@ -275,21 +280,31 @@ def run(tier, v):
     quick = tier == "quick"
     cov = {"samples": [], "observations": []}
     t0 = time.time()
+    parts = {}
+
+    def mark(name, since):
+        parts[name] = round(time.time() - since, 1)
+        vlib.log("x01 %s: %.1fs" % (name, parts[name]))
+        return time.time()
     pool = ThreadPoolExecutor(max_workers=2)
     design = pool.submit(_design, quick)
     gen = pool.submit(lambda: vlib.tlc("BufSizeGen", "BufSizeGen_quick.cfg" if quick else "BufSizeGen_thorough.cfg",
                                        workers=1, timeout=900 if quick else 3000, heap="3g"))
     # 2. impl -> spec
+    t = time.time()
     h = vlib.build_harness(["e2e", "x01"])
+    t = mark("build", t)
     out = os.path.join(vlib.scratch(), "x01tv")
     s = vlib.run_driver(h, "x01_tv", out, {"thorough": not quick, "shards": 16}, timeout=600 if quick else 3000)
-    files, details, nruns = _gather(out, 12 if quick else 16)
+    t = mark("driver", t)
+    files, details, nruns = _gather(out, 6 if quick else 16)
     amb = [d["case"]["label"] + ": " + d["ambiguous"] for d in details.values() if d.get("ambiguous")]
     if amb:
         raise vlib.Infra("the recorder could not attribute an event (harness, not a verdict): %s" % amb[:5])
     if nruns < (40 if quick else 300):
         raise vlib.Infra("only %d complete recorded runs" % nruns)
     bad, tvstates = _judge(files, v, details, timeout=600 if quick else 3000)
+    t = mark("trace_validation", t)
     cov["traces_validated_against_impl"] = nruns
     cov["trace_events"] = s.get("events")
     cov["trace_runs_rejected"] = len(bad)
@@ -331,6 +346,7 @@ def run(tier, v):
         if cov["observations"]:
             cov["observations"][0]["strict_invariant_on_a_real_run"] = {"label": strict_run[0]["label"], "bufsize": strict_run[0]["max"],
                                                                          "tlc_violated": r["violated"]}
+    t = mark("strict_observation", t)
     # 4. binding self-tests on one small recorded run that doubles and shrinks
     st_file = _selftest_file(files, out)
 
@@ -357,14 +373,18 @@ def run(tier, v):
     def drop_ack(ev):
         k = next(i for i, e in enumerate(ev) if e["e"] == "ack")
         return ev[:k] + ev[k + 1:]
-    tests = {"size_plus_one": corrupt_size, "block_plus_one": corrupt_block, "fast_reported_as_slow": corrupt_class, "ack_dropped": drop_ack}
+    tests = {"size_plus_one": corrupt_size, "ack_dropped": drop_ack}
+    if not quick:
+        tests.update({"block_plus_one": corrupt_block, "fast_reported_as_slow": corrupt_class})
     with ThreadPoolExecutor(max_workers=4) as ex:
         rs = list(ex.map(lambda kv: (kv[0], vlib.selftest_reject("BufSizeTrace", "BufSizeTrace.cfg", st_file, kv[1], timeout=600, heap="1500m")), tests.items()))
     cov["selftests_rejected"] = dict(rs)
     if not all(x for _, x in rs):
         raise vlib.Infra("binding self-test failed: a corrupted trace was accepted: %s" % dict(rs))
+    t = mark("selftests", t)
     # 3. spec -> impl
     g = gen.result()
+    t = mark("wait_gen_tlc", t)
     if not g["ok"]:
         raise vlib.Infra("BufSizeGen violates %s on the design level\n%s" % (g["violated"], g["out"][-2000:]))
     cases = vlib.mbt_lines(g["out"])
@@ -389,9 +409,12 @@ def run(tier, v):
     cov["gen_mismatches"] = len(mism)
     big = [c for c in cases if c["kind"] == "sent" and c["n"] >= 1 << 29]
     cov["samples"].append({"gen_case": (big or cases)[0]})
+    t = mark("gen_replay", t)
     # 1. design
     _judge_design(design.result(), cov)
-    cov["wall_parts_s"] = {"total": round(time.time() - t0, 1)}
+    t = mark("wait_design_tlc", t)
+    parts["total"] = round(time.time() - t0, 1)
+    cov["wall_parts_s"] = parts
     return cov
 
 
